@@ -369,7 +369,10 @@ def lint_program(rng):
             return st(s), ('str', s)
         if r < 0.8:
             return rng.choice([TRUE, NULL, MYST]), None
-        return g.expr(2), 'unknown'
+        e = g.expr(2)
+        while not reads(e):
+            e = g.expr(2)
+        return e, 'unknown'
 
     def stmts(depth):
         out = []
@@ -388,17 +391,15 @@ def lint_program(rng):
             elif r < 0.5:
                 e, c = rhs()
                 l = g.lhs()
-                if rng.random() < 0.5:
+                le = rock.left_edge(e)
+                if rng.random() < 0.5 or (le[0] == 'un' and le[1] == 'minus'):
+                    # (`let x be -…` would read the minus as a compound operator)
                     out.append(('assign', l, None, [e], 'put'))
                 else:
-                    if e[0] == 'un':
-                        e, c = num(7), ('num', 7.0)
                     out.append(('assign', l, None, [e], 'let'))
                 out[-1] = out[-1] + (('boring', render_lhs(l), c),)
             elif r < 0.58:
                 e, c = rhs()
-                if e[0] == 'un':
-                    e, c = num(7), ('num', 7.0)
                 out.append(('assign', g.lhs(), rng.choice(['plus', 'minus']), [e], 'let', ('boring', None, None)))
             elif r < 0.68:
                 # poetic assignment with an expression: must start with a literal word
@@ -414,7 +415,8 @@ def lint_program(rng):
                 arr = rng.choice([v(rng.choice(names)), sub(v(names[0]), num(1))])
                 n_el = rng.random()
                 if n_el < 0.2:
-                    out.append(('push', arr, ('list', [e, num(1)]), ('boring', None, None)))
+                    # (a binary expression may not be the first of several elements: its own list takes the comma)
+                    out.append(('push', arr, ('list', [num(1), e]), ('boring', None, None)))
                 elif n_el < 0.3:
                     out.append(('push', arr, ('plit', g.poetic_words()), ('boring', None, None)))
                 else:
@@ -422,7 +424,10 @@ def lint_program(rng):
                         c = None
                     out.append(('push', arr, ('list', [e]), ('boring', render_name(arr[1]) if arr[0] == 'id' else '<expression>', c)))
             else:
-                out.append(g.simple_stmt(2))
+                s_ = g.simple_stmt(2)
+                while s_[0] in ('assign', 'pnum', 'push'):
+                    s_ = g.simple_stmt(2)
+                out.append(s_)
         return out
     return [stmts(2) for _ in range(rng.randint(1, 2))]
 
@@ -440,6 +445,21 @@ def strip_marks(t):
 
 def fill_stars(payload, rng):
     return ''.join(rng.choice('bcdfghjklmqrvwxz') if c == '*' else c for c in payload)
+
+
+def string_spellable(value):
+    """a quoted string value has a poetic spelling iff it has no line break and leaves no comment open"""
+    if not value.startswith('"'):
+        return True
+    inc = False
+    for c in value[1:-1]:
+        if c == '\n':
+            return False
+        if c == '(':
+            inc = True
+        elif c == ')':
+            inc = False
+    return not inc
 
 
 SUGG = re.compile(r'^Consider using a poetic literal such as: `(.*)`$', re.S)
@@ -493,15 +513,15 @@ def c18(run):
                 if target.startswith('<'):
                     continue
                 stmt = fill_stars(payload, rng)
-                follow.append(run_req(stmt + '\nsay ' + target + '\n'))
+                follow.append(run_req(stmt + '\nsay ' + target + (' at 0' if stmt.startswith('Rock ') else '') + '\n'))
                 fmeta.append((src, d, value, target, stmt))
             if not d['suggestions']:
                 run.count('no-suggestion')
-                ok_none = value.startswith('-') or value in ('inf', 'NaN') or '\n' in value
+                ok_none = value.startswith('-') or value in ('inf', 'NaN') or not string_spellable(value)
                 if not ok_none:
                     run.fail({'program': src, 'diagnostic': d}, 'no suggestion although the value has a poetic spelling')
             else:
-                if value.startswith('-') or value in ('inf', 'NaN', '-inf') or '\n' in value:
+                if value.startswith('-') or value in ('inf', 'NaN', '-inf') or not string_spellable(value):
                     run.fail({'program': src, 'diagnostic': d}, 'a misleading suggestion is made for a value without poetic spelling')
     fr = common.impl(follow)
     for (src, d, value, target, stmt), r in zip(fmeta, fr):
@@ -521,7 +541,13 @@ def c18(run):
             except ValueError:
                 run.fail(case, 'the suggested poetic number prints %r' % printed)
                 continue
-            if a != b and abs(a - b) > 1e-12 * max(abs(a), abs(b)):
+            from .p_front import ulp_distance
+            if len(value) > 250:
+                # literals with hundreds of digits: the rounding of poetic literals is not bounded there
+                # (powers of ten over/underflow: recorded finding F2 of C11); not part of this comparison
+                run.count('suggestion-with->250-digits-not-compared')
+                continue
+            if a != b and ulp_distance(a, b) > 8:
                 run.fail(case, 'the suggested poetic words spell %r, the reported value is %s' % (printed.strip(), value))
     # expectations from the generator: a diagnostic exactly for the marked statements
     exp_reqs, exp_meta = [], []
@@ -671,7 +697,7 @@ def c19(run):
                 'the report has >= 2 diagnostics; distinct by program text')
     cases = []
     for i in range(n):
-        names = [sv('xx'), sv('Xx'), ('common', 'the', 'cat'), ('common', 'The', 'cat'), ('proper', ['Big', 'Joe'])][:rng.randint(1, 5)]
+        names = [sv('xx'), sv('Xx'), ('common', 'the', 'cat'), ('common', 'The', 'cat'), ('proper', ['Bad', 'Joe'])][:rng.randint(1, 5)]
         g = rock.Gen(rng, names=names, funcs=names[:rng.randint(1, 2)], max_depth=rng.randint(1, 3))
         g.fresh_name = lambda: rng.choice(names + [sv('pp')])
         prog = g.program(depth=rng.randint(0, 2))
